@@ -17,6 +17,7 @@ from vf.simk.world import World
 
 ID = "C18"
 LEVEL = "exploration"
+ALT_MOUNT = True
 NR_IOPRIO_GET = 252          # x86_64
 _libc = ctypes.CDLL(None, use_errno=True)
 
@@ -432,7 +433,7 @@ def sim_cases(thorough):
 
 
 def run(ctx):
-    lr = live_requests(ctx.thorough)
+    lr = live_requests(ctx.thorough) if not ctx.alt else []          # (the live part does not depend on the simulated mount)
     res = ctx.pmap(live, lr, chunk=1)
     viols, labels, nlive = [], {}, 0
     for (kind, reqs), (bad, n, labs) in zip(lr, res):
@@ -454,7 +455,7 @@ def run(ctx):
     for c, bad in zip(gc_, ctx.pmap(sim_get, gc_)):
         for cause, msg in bad:
             viols.append({"cause": cause, "msg": msg, "case": {"get": list(c)}})
-    bk = bigkernel_cases(ctx.thorough)
+    bk = bigkernel_cases(ctx.thorough) if not ctx.alt else []
     for c, bad in zip(bk, bigkernel(bk)):
         for cause, msg in bad:
             viols.append({"cause": cause, "msg": msg, "case": {"bigkernel": c}})
